@@ -3,8 +3,8 @@
 //                                              entry point, every policy/mark, logs the observations
 //   utf_harness c11table <table.ndjson> <out>  pushes every scalar value of a TLC-written encoding table through all ordered
 //                                              encoding pairs, both policies, Convert::To; writes the implementation's table
-//   utf_harness c11seq <count> <seed> <maxlen> seeded random sequences of scalar values (source units taken from the TLC table
-//                                              file given as 4th arg is not needed: sequences are logged with their input)
+//   utf_harness c11seq <count> <seed> <maxlen> seeded random sequences of scalar values; every conversion is logged with its input
+//                                              units, so that TLC can evaluate the specification on the logged input
 // The harness never judges.  It logs what the code returned; identical observations of different entry points are merged
 // (the list of entry points is kept) to keep the logs small.
 #include "vh_common.h"
